@@ -387,7 +387,7 @@ theorem preview_eq_accept (eq : Char → Char → Bool) (b : Buf) (sub : Text) (
   | none => rfl
   | some r => rfl
 
-/-- `document_for_search` is a pure query -/
+/-- `get_search_position` always returns a position inside the current text -/
 theorem getSearchPosition_le (eq : Char → Char → Bool) (b : Buf) (sub : Text) (dir : Dir)
     (incl : Bool) (k : Nat) (hwf : BufWF b) :
     getSearchPosition eq b sub dir incl k ≤ b.text.length := by
